@@ -348,45 +348,52 @@ pub fn global_parse_float(
         return Ok(Guarded::unguarded(JsValue::Number(f64::NAN)));
     }
 
-    // Find the longest valid float prefix
-    let mut num_str = String::new();
-    let mut has_dot = false;
-    let mut has_exp = false;
-    let mut chars = s.chars().peekable();
-
-    // Handle sign
-    if matches!(chars.peek(), Some('-') | Some('+'))
-        && let Some(c) = chars.next()
-    {
-        num_str.push(c);
+    // Find the longest prefix that is a StrDecimalLiteral:
+    // [+-] ( Infinity | digits [. digits] [exponent] | . digits [exponent] )
+    let bytes = s.as_bytes();
+    let mut pos = 0;
+    if matches!(bytes.first(), Some(b'+') | Some(b'-')) {
+        pos += 1;
     }
-
-    // Parse digits and decimal point
-    while let Some(&c) = chars.peek() {
-        match c {
-            '0'..='9' => {
-                num_str.push(c);
-                chars.next();
-            }
-            '.' if !has_dot && !has_exp => {
-                has_dot = true;
-                num_str.push(c);
-                chars.next();
-            }
-            'e' | 'E' if !has_exp => {
-                has_exp = true;
-                num_str.push(c);
-                chars.next();
-                // Optional sign after exponent
-                if matches!(chars.peek(), Some('-') | Some('+'))
-                    && let Some(sign) = chars.next()
-                {
-                    num_str.push(sign);
-                }
-            }
-            _ => break,
+    if s.get(pos..).is_some_and(|rest| rest.starts_with("Infinity")) {
+        let value = if bytes.first() == Some(&b'-') {
+            f64::NEG_INFINITY
+        } else {
+            f64::INFINITY
+        };
+        return Ok(Guarded::unguarded(JsValue::Number(value)));
+    }
+    let digits = |from: usize| -> usize {
+        bytes
+            .get(from..)
+            .map(|rest| rest.iter().take_while(|b| b.is_ascii_digit()).count())
+            .unwrap_or(0)
+    };
+    let int_digits = digits(pos);
+    pos += int_digits;
+    let mut frac_digits = 0;
+    if bytes.get(pos) == Some(&b'.') {
+        frac_digits = digits(pos + 1);
+        // "1." is a literal, "." alone is not
+        if int_digits > 0 || frac_digits > 0 {
+            pos += 1 + frac_digits;
         }
     }
+    if int_digits == 0 && frac_digits == 0 {
+        return Ok(Guarded::unguarded(JsValue::Number(f64::NAN)));
+    }
+    // The exponent belongs to the number only when it has digits
+    if matches!(bytes.get(pos), Some(b'e') | Some(b'E')) {
+        let mut exp_pos = pos + 1;
+        if matches!(bytes.get(exp_pos), Some(b'+') | Some(b'-')) {
+            exp_pos += 1;
+        }
+        let exp_digits = digits(exp_pos);
+        if exp_digits > 0 {
+            pos = exp_pos + exp_digits;
+        }
+    }
+    let num_str = s.get(..pos).unwrap_or("").trim_end_matches('.');
     match num_str.parse::<f64>() {
         Ok(n) => Ok(Guarded::unguarded(JsValue::Number(n))),
         Err(_) => Ok(Guarded::unguarded(JsValue::Number(f64::NAN))),
